@@ -1795,6 +1795,10 @@ func copiedHelperFirstImportFamily() []*Program {
 		{"result", "func Describe() (filepath string) {\n\tfilepath = fp.Base(\"a/b\")\n\treturn\n}\n"},
 		{"guard", "func Describe(v interface{}) string {\n\tswitch filepath := v.(type) {\n\tcase string:\n\t\treturn filepath + fp.Base(\"a/b\")\n\tcase int:\n\t\treturn fp.Base(\"c/d\") + string(rune('0'+filepath))\n\t}\n\treturn \"\"\n}\n"},
 		{"closure", "var Describe = func() string {\n\tfilepath := []string{\"x\"}\n\treturn func() string { return filepath[0] + fp.Base(\"a/b\") }()\n}\n"},
+		{"const", "func Describe() string {\n\tconst filepath = \"a/b\"\n\treturn fp.Base(filepath)\n}\n"},
+		{"local-type", "func Describe() string {\n\ttype filepath struct{ p string }\n\tv := filepath{p: \"a/b\"}\n\treturn fp.Base(v.p)\n}\n"},
+		{"label", "func Describe() string {\n\tout := \"\"\nfilepath:\n\tfor i := 0; i < 3; i++ {\n\t\tout += fp.Base(\"a/b\")\n\t\tif i == 1 {\n\t\t\tbreak filepath\n\t\t}\n\t}\n\treturn out\n}\n"},
+		{"type-parameter", "func Describe[filepath any](v filepath) string {\n\t_ = v\n\treturn fp.Base(\"a/b\")\n}\n\nvar _ = Describe[int]\n"},
 		{"control-registered-earlier", "var _ = fp.Base\n\nfunc Describe() string {\n\tfilepath := struct{ Name string }{\"local\"}\n\treturn filepath.Name + \"/\" + fp.Base(\"a/b\")\n}\n"},
 	}
 	for v, h := range helpers {
